@@ -205,7 +205,7 @@ func (g *builder) result() []byte {
 	case 0, 1:
 		body = g.other()
 	case 2:
-		body = enc(&mt.RPCError{ErrorCode: hc.Pick(r, 400, 420, 500, -1, 0, 303), ErrorMessage: hc.Pick(r, "FLOOD_WAIT_3", "", "X", "A_B_12_C", "PHONE_MIGRATE_2", string(r.Bytes(r.Intn(12))))})
+		body = enc(&mt.RPCError{ErrorCode: hc.Pick(r, 400, 420, 500, -1, 0, 303), ErrorMessage: hc.Pick(r, "FLOOD_WAIT_3", "", "X", "A_B_12_C", "PHONE_MIGRATE_2", string(r.Bytes(r.Intn(12))), strings.Repeat("E", hc.Pick(r, 253, 254, 255, 256, 257, 300)))})
 	case 3:
 		body = enc(&mt.Pong{MsgID: g.id(), PingID: g.id()})
 	case 4:
@@ -277,7 +277,13 @@ func mutate(r *hc.RNG, in []byte) []byte {
 	if len(out) == 0 {
 		return out
 	}
-	switch r.Intn(6) {
+	switch r.Intn(7) {
+	case 6: // lose the last 1..8 bytes
+		k := r.Range(1, 8)
+		if k > len(out) {
+			k = len(out)
+		}
+		out = out[:len(out)-k]
 	case 0:
 		out = out[:r.Intn(len(out)+1)]
 	case 1:
@@ -298,6 +304,14 @@ func mutate(r *hc.RNG, in []byte) []byte {
 		out = out[:4*r.Intn(len(out)/4+1)]
 	}
 	return out
+}
+
+// exact copies the payload into a buffer whose capacity equals its length (a freshly read message):
+// slice expressions are checked against cap, so an over-read into spare capacity would go unnoticed.
+func exact(p []byte) []byte {
+	b := make([]byte, len(p))
+	copy(b, p)
+	return b[:len(p):len(p)]
 }
 
 func u64s(xs []uint64) string {
@@ -457,7 +471,7 @@ func runImpl(ci *caseIn) (obs string, routed []uint64, panicked any) {
 				panicked = r
 			}
 		}()
-		err = mtproto.VerifC23HandleMessage(conn, 0x5f5e100000000001, &bin.Buffer{Buf: append([]byte{}, ci.payload...)})
+		err = mtproto.VerifC23HandleMessage(conn, 0x5f5e100000000001, &bin.Buffer{Buf: exact(ci.payload)})
 	}()
 	if panicked != nil {
 		return "panic", routed, panicked
